@@ -55,8 +55,29 @@ fn note_drop(is_clone: bool) {
     }
 }
 
-#[derive(Debug, Clone, PartialEq, Eq, Hash, PartialOrd, Ord, Encode, Decode)]
+#[derive(Debug, Clone, PartialEq, Eq, PartialOrd, Ord, Encode, Decode)]
 pub struct Key(pub u64);
+// ---- hash gate: the armed thread parks inside its n-th `Hash::hash` of Key(7) -----------
+thread_local! { static HG_ARM: Cell<u64> = const { Cell::new(0) }; static HG_CNT: Cell<u64> = const { Cell::new(0) }; }
+static HG: Mutex<(bool, bool)> = Mutex::new((false, false)); // (parked, release)
+static HG_CV: Condvar = Condvar::new();
+impl std::hash::Hash for Key {
+    fn hash<H: std::hash::Hasher>(&self, h: &mut H) {
+        if self.0 == 7 {
+            let c = HG_CNT.with(|c| { c.set(c.get() + 1); c.get() });
+            let n = HG_ARM.with(|a| a.get());
+            if n != 0 && c == n {
+                let mut g = HG.lock().unwrap();
+                g.0 = true;
+                HG_CV.notify_all();
+                while !g.1 { g = HG_CV.wait(g).unwrap(); }
+                g.1 = false; g.0 = false;
+            }
+        }
+        self.0.hash(h)
+    }
+}
+
 
 /// value of the single map (T = 0) and the two value types of the multi-type map (T = 1, 2)
 #[derive(Debug)]
@@ -840,20 +861,34 @@ fn witness_unordered() -> (Option<u64>, Option<u64>, String) {
 /// and is parked; a writer inserts x (log updated, value cache still vacant: nothing to update);
 /// the reader installs the set it built.  A read that starts after all of that misses x.
 fn witness_fill_race_set() -> (Vec<u64>, Vec<u64>) {
-    let rig = Rig::new(true);
-    let map: Arc<SetMap<OrdSet>> = Arc::new(CacheKeyOfSetMap::new(8, rig.db.clone()));
-    rig.db.0.hold.lock().unwrap().scan_armed = true;
-    let m2 = map.clone();
-    let reader = std::thread::spawn(move || { IS_FG.with(|f| f.set(true)); set_get(&m2, 0) });
-    rig.db.wait_reader_parked();
-    let mut b = rig.wb().new_write_batch();
-    block_on(map.insert(Key(0), Elem::new(7), &mut b));
-    rig.db.release_reader();
-    let _overlapping = reader.join().unwrap();
-    let got = set_get(&map, 0);
-    drop(map);
-    rig.finish(vec![b]);
-    (got, vec![7])
+    // three forms: the racing operation is the first one of its batch on the key; it is a later
+    // one (the batch has already written the key: `updated` is false for it); it is a remove
+    for form in 0..3 {
+        let rig = Rig::new(true);
+        let map: Arc<SetMap<OrdSet>> = Arc::new(CacheKeyOfSetMap::new(8, rig.db.clone()));
+        let mut b = rig.wb().new_write_batch();
+        let mut want = vec![7];
+        if form >= 1 {
+            // the batch touches the key before the reader starts; evict nothing: the value cache is still vacant
+            block_on(map.insert(Key(0), Elem::new(3), &mut b));
+            want = vec![3, 7];
+        }
+        if form == 2 { block_on(map.insert(Key(0), Elem::new(9), &mut b)); }
+        rig.db.0.hold.lock().unwrap().scan_armed = true;
+        let m2 = map.clone();
+        let reader = std::thread::spawn(move || { IS_FG.with(|f| f.set(true)); set_get(&m2, 0) });
+        rig.db.wait_reader_parked();
+        block_on(map.insert(Key(0), Elem::new(7), &mut b));
+        if form == 2 { block_on(map.remove(&Key(0), &Elem::new(9), &mut b)); }
+        rig.db.release_reader();
+        let _overlapping = reader.join().unwrap();
+        let mut got = set_get(&map, 0);
+        got.sort();
+        drop(map);
+        rig.finish(vec![b]);
+        if got != want { return (got, want); }
+    }
+    (vec![7], vec![7])
 }
 /// wide fill race (F8, public API only): a reader misses and reads "absent" from the store, parked;
 /// a writer inserts v, the batch becomes durable, is notified, the entry is evicted (cold reads);
@@ -879,6 +914,76 @@ fn witness_fill_race_wide() -> (Option<u64>, Option<u64>, u64) {
     drop(maps);
     rig.finish(vec![]);
     (got, Some(1), churn)
+}
+
+/// The writer of key 7 is parked inside its n-th hash of the key (between `fetch_add` and
+/// `tiny_lfu.entry` for the right n); a reader starts, misses, reads "absent" and is parked after the
+/// store read; the writer goes on, the batch becomes durable, is notified, the entry is evicted;
+/// the reader installs.  Returns (hash calls of the insert, writer parked, reader reached the store, final get).
+fn witness_guard_race(n: u64) -> (u64, bool, bool, Option<u64>) {
+    let rig = Rig::new(true);
+    let maps = Arc::new(Wide::new(1, &rig.db));
+    let k = 4 * 7;
+    let (tx, rx) = std::sync::mpsc::channel::<()>();
+    let m1 = maps.clone();
+    let mut b = rig.wb().new_write_batch();
+    let writer = std::thread::spawn(move || {
+        IS_FG.with(|f| f.set(true));
+        HG_CNT.with(|c| c.set(0));
+        HG_ARM.with(|a| a.set(n));
+        m1.insert(k, 1, &mut b);
+        HG_ARM.with(|a| a.set(0));
+        let calls = HG_CNT.with(|c| c.get());
+        let _ = tx.send(());
+        (b, calls)
+    });
+    // wait until the writer is parked or done
+    let t0 = Instant::now();
+    let mut parked = false;
+    loop {
+        if HG.lock().unwrap().0 { parked = true; break; }
+        if rx.try_recv().is_ok() { break; }
+        assert!(t0.elapsed() < Duration::from_secs(20), "writer neither parked nor done");
+        std::thread::sleep(Duration::from_micros(50));
+    }
+    let mut reader = None;
+    let mut at_store = false;
+    if parked {
+        rig.db.0.hold.lock().unwrap().wide_key = Some(rig.db.enc(&Key(7)));
+        let m2 = maps.clone();
+        let h = std::thread::spawn(move || { IS_FG.with(|f| f.set(true)); m2.get(k) });
+        // parked after the store read, or returned (a hit)
+        let t1 = Instant::now();
+        loop {
+            if rig.db.0.hold.lock().unwrap().waiting { at_store = true; break; }
+            if h.is_finished() { break; }
+            if t1.elapsed() > Duration::from_secs(3) { break; }   // blocked on the entry lock of the parked writer
+            std::thread::sleep(Duration::from_micros(50));
+        }
+        reader = Some(h);
+        { let mut g = HG.lock().unwrap(); g.1 = true; HG_CV.notify_all(); }
+    }
+    let (b, calls) = writer.join().unwrap();
+    if !at_store {
+        if let Some(h) = &reader {
+            let t1 = Instant::now();
+            while !h.is_finished() && !rig.db.0.hold.lock().unwrap().waiting && t1.elapsed() < Duration::from_secs(3) {
+                std::thread::sleep(Duration::from_micros(50));
+            }
+        }
+    }
+    rig.wb().submit_write_batch(b);
+    rig.db.make_visible();
+    rig.return_and_notify(true);
+    for c in 0..4000u64 { let _ = maps.get(4 * (300 + c)); }
+    rig.db.0.hold.lock().unwrap().wide_key = None;
+    rig.db.release_reader();
+    if let Some(h) = reader { let _ = h.join().unwrap(); }
+    { let mut hh = rig.db.0.hold.lock().unwrap(); hh.release = false; }
+    let got = maps.get(k);
+    drop(maps);
+    rig.finish(vec![]);
+    (calls, parked, at_store, got)
 }
 
 // ---------------------------------------------------------------------------------------
@@ -993,7 +1098,16 @@ fn main() {
     let (f3b_got, f3b_want, f3b_term) = witness_f3b();
     let (un_got, un_want, un_term) = witness_unordered();
     let (frs_got, frs_want) = witness_fill_race_set();
-    let (frw_got, frw_want, frw_churn) = witness_fill_race_wide();
+    let (mut frw_got, frw_want, frw_churn) = witness_fill_race_wide();
+    // the writer parked inside its n-th hash of the key (between the count and the entry operation
+    // for the right n), reader misses and reads the store meanwhile: regression for the first,
+    // insufficient ordering of the repair (Cache/FillGuard.v guard_before_refuted)
+    let mut guard_stale: Vec<u64> = Vec::new();
+    for n in 1..=6u64 {
+        let (_calls, parked, _at_store, got) = witness_guard_race(n);
+        if got != Some(1) { guard_stale.push(n); if frw_got == frw_want { frw_got = got; } }
+        if !parked { break; }
+    }
     let f2_present = f2_ord != f2_want;
     let f3_present = f3_got != f3_want || f3b_got != f3b_want;
     cases.push((f2_term.clone(), 40));
@@ -1058,7 +1172,7 @@ fn main() {
         "{{\"cases\":{},\"f2\":{{\"present\":{},\"expected\":{},\"got_ordset\":{},\"got_dashset\":{},\"term\":{}}},\
 \"f3\":{{\"present\":{},\"expected\":{},\"got\":{},\"got_three_open_batches\":{},\"term\":{},\"term_b\":{}}},\
 \"unordered\":{{\"expected_latest\":{},\"got\":{},\"term_head\":{}}},\
-\"fill_race_set\":{{\"present\":{},\"expected\":{},\"got\":{}}},\"fill_race_wide\":{{\"present\":{},\"expected\":{},\"got\":{},\"cold_reads\":{}}},\
+\"fill_race_set\":{{\"present\":{},\"expected\":{},\"got\":{}}},\"fill_race_wide\":{{\"present\":{},\"expected\":{},\"got\":{},\"cold_reads\":{},\"writer_parked_in_hash_call_stale\":{:?}}},\
 \"wide\":{{\"cases\":{},\"ops\":{},\"gets\":{},\"misses\":{},\"gets_in_commit_window\":{},\"gets_of_pinned_key\":{},\"negative_hits\":{},\"unordered_cases\":{},\"commits\":{},\"notifies\":{},\"by_capacity\":{{{}}}}},\
 \"set\":{{\"cases\":{},\"ops\":{},\"gets\":{},\"fetches\":{},\"big_cases\":{},\"spilled_gets\":{},\"gets_in_commit_window\":{},\"unordered_cases\":{},\"ref_mismatch_cases\":{}}},\
 \"heap\":{{\"cases\":{},\"ops\":{}}},\
@@ -1067,7 +1181,7 @@ fn main() {
         cases.len(), f2_present, f2_want, f2_ord, f2_dash, jstr(&f2_term.chars().take(80).collect::<String>()),
         f3_present, nlist(&f3_want), nlist(&f3_got), nlist(&f3b_got), jstr(&f3_term), jstr(&f3b_term),
         jstr(&opt(un_want)), jstr(&opt(un_got)), jstr(&un_term.chars().take(120).collect::<String>()),
-        frs_got != frs_want, nlist(&frs_want), nlist(&frs_got), frw_got != frw_want, jstr(&opt(frw_want)), jstr(&opt(frw_got)), frw_churn,
+        frs_got != frs_want, format!("{:?}", frs_want), format!("{:?}", frs_got), frw_got != frw_want, jstr(&opt(frw_want)), jstr(&opt(frw_got)), frw_churn, guard_stale,
         st.wide_cases, st.wide_ops, st.wide_gets, st.wide_misses, st.wide_gets_in_window, st.wide_gets_pinned, st.wide_neg_hits,
         st.wide_unordered_cases, st.wide_commits, st.wide_notifies, st.by_cap.iter().map(|(k, v)| format!("\"{k}\":{v}")).collect::<Vec<_>>().join(","),
         st.set_cases, st.set_ops, st.set_gets, st.set_fetches, st.set_big_cases, st.set_spilled_gets, st.set_gets_in_window,
